@@ -145,169 +145,14 @@ func tunnelCands(node string, kind string) []string {
 
 // ---------------------------------------------------------------------------------------------
 // Generators
-
-func genPool(c *harness.Case) *poolV {
-	p := &poolV{Mode: poolModes[c.R.Intn(len(poolModes))], Masq: c.R.Intn(2) == 0}
-	if c.R.Intn(12) == 0 {
-		p.LBOnly = true
-	}
-	return p
-}
-
-func genNode(c *harness.Case, name string, foreignAddr bool) *nodeV {
-	cands := nodeAddrCands[name]
-	n := &nodeV{Addr: cands[c.R.Intn(len(cands))]}
-	if foreignAddr {
-		// transient misconfiguration: the address of another node
-		o := nodeNames[c.R.Intn(len(nodeNames))]
-		n.Addr = nodeAddrCands[o][c.R.Intn(len(nodeAddrCands[o]))]
-	}
-	if c.R.Intn(10) < 7 {
-		t := tunnelCands(name, "vxlan")
-		n.VXLANTun = t[c.R.Intn(len(t))]
-		if c.R.Intn(3) == 0 {
-			n.MAC = fmt.Sprintf("66:aa:bb:cc:dd:%02x", c.R.Intn(4))
-		}
-	}
-	if c.R.Intn(10) < 6 {
-		t := tunnelCands(name, "ipip")
-		n.IPIPTun = t[c.R.Intn(len(t))]
-	}
-	return n
-}
-
-func genBlock(c *harness.Case, cidr string) *blockV {
-	b := &blockV{Allocs: map[int]string{}}
-	switch r := c.R.Intn(10); {
-	case r < 3:
-		b.Host = me
-	case r < 9:
-		b.Host = nodeNames[1+c.R.Intn(len(nodeNames)-1)]
-	default:
-		b.Host = ""
-	}
-	p := netip.MustParsePrefix(cidr)
-	size := 1 << (32 - p.Bits())
-	if size == 1 {
-		if c.R.Intn(2) == 0 && b.Host != "" {
-			b.Allocs[0] = b.Host
-		}
-		return b
-	}
-	n := c.R.Intn(4)
-	for i := 0; i < n; i++ {
-		ord := 1 + c.R.Intn(5)
-		var host string
-		switch r := c.R.Intn(10); {
-		case r < 4:
-			host = b.Host
-		case r < 9:
-			host = nodeNames[c.R.Intn(len(nodeNames))]
-		default:
-			host = "" // allocation without a recorded node
-		}
-		b.Allocs[ord] = host
-	}
-	// tunnel-range ordinals: a tunnel address candidate of node i recorded as that node's allocation
-	if size >= 32 && c.R.Intn(3) == 0 {
-		i := c.R.Intn(len(nodeNames))
-		base := 10
-		if c.R.Intn(2) == 0 {
-			base = 20
-		}
-		b.Allocs[base+i] = nodeNames[i]
-	}
-	return b
-}
-
-// genFinal draws a final datastore state that satisfies the datastore's own invariants (disjoint
-// pools and blocks, one address per node, a local workload's address allocated to the local node).
-func genFinal(c *harness.Case) *state {
-	s := &state{Pools: map[string]*poolV{}, Nodes: map[string]*nodeV{}, Blocks: map[string]*blockV{}, WEPs: map[string]*wepV{}}
-	for _, p := range poolCands {
-		if c.R.Intn(100) < 75 {
-			s.Pools[p] = genPool(c)
-		}
-	}
-	for _, n := range nodeNames {
-		pr := 80
-		if n == me {
-			pr = 92
-		}
-		if c.R.Intn(100) < pr {
-			s.Nodes[n] = genNode(c, n, false)
-		}
-	}
-	for _, b := range blockCands {
-		if c.R.Intn(100) < 70 {
-			s.Blocks[b] = genBlock(c, b)
-		}
-	}
-	// Consistency of the final state with Calico IPAM: a tunnel address that lies inside an existing
-	// block is recorded there as an allocation of its node (calico-node allocates tunnel addresses
-	// through IPAM with the node attribute).
-	for _, n := range sortedKeysB(s.Nodes) {
-		nv := s.Nodes[n]
-		for _, t := range []string{nv.VXLANTun, nv.IPIPTun} {
-			if t == "" {
-				continue
-			}
-			ta := netip.MustParseAddr(t)
-			for b, bv := range s.Blocks {
-				p := netip.MustParsePrefix(b)
-				if !p.Contains(ta) {
-					continue
-				}
-				if p.Bits() == 32 {
-					bv.Host = n // a dedicated /32 tunnel block belongs to the tunnel's node
-					bv.Allocs = map[int]string{0: n}
-					continue
-				}
-				ord := 0
-				for a := p.Addr(); a != ta; a = a.Next() {
-					ord++
-				}
-				bv.Allocs[ord] = n
-			}
-		}
-	}
-	// local workloads: addresses allocated to the local node (in a local block or borrowed); the
-	// allocation record is always present in the final state (the CNI plugin allocates before it
-	// creates the endpoint).
-	tun := s.tunnelAddrs()
-	var avail []string
-	for _, b := range sortedKeysB(s.Blocks) {
-		bv := s.Blocks[b]
-		p := netip.MustParsePrefix(b)
-		size := 1 << (32 - p.Bits())
-		for ord := 0; ord < size && ord <= 6; ord++ {
-			a := ordinalIP(b, ord)
-			if tun[a] {
-				continue
-			}
-			owner, allocated := bv.Allocs[ord]
-			if allocated && owner == me {
-				avail = append(avail, a)
-			} else if !allocated && bv.Host == me && c.R.Intn(3) == 0 {
-				bv.Allocs[ord] = me
-				avail = append(avail, a)
-			}
-		}
-	}
-	c.R.Shuffle(len(avail), func(i, j int) { avail[i], avail[j] = avail[j], avail[i] })
-	for _, w := range wepNames {
-		if len(avail) == 0 || c.R.Intn(3) == 0 {
-			continue
-		}
-		k := 1
-		if len(avail) > 1 && c.R.Intn(5) == 0 {
-			k = 2
-		}
-		s.WEPs[w] = &wepV{IPs: append([]string{}, avail[:k]...)}
-		avail = avail[k:]
-	}
-	return s
-}
+//
+// A case is a TRUE datastore history: a sequence of mutations, each of which keeps the datastore
+// consistent the way Calico's own writers keep it (an address is recorded in its IPAM block, with the
+// node attribute, BEFORE a node's tunnel address or a workload endpoint starts using it, and the
+// record goes away only AFTER the user is gone; a block is deleted only when nothing uses it).  What
+// Felix sees of it is, per resource kind (one watch per kind), a snapshot of that kind at some point
+// of the history followed by the remaining events of that kind in order; the kinds are interleaved
+// arbitrarily.  Two such deliveries of the same true history are compared.
 
 func sortedKeysB[V any](m map[string]V) []string {
 	out := make([]string, 0, len(m))
@@ -331,81 +176,398 @@ func (s *state) tunnelAddrs() map[string]bool {
 	return t
 }
 
-// genHistory: for every key a version list (0-2 intermediates, then the final value or deletion),
-// interleaved at random preserving per-key order.
-func genHistory(c *harness.Case, fin *state) []upd {
-	var lists [][]upd
-	add := func(kind, key string, finalVal any, present bool, gen func() any) {
-		var l []upd
-		k := c.R.Intn(3)
-		for i := 0; i < k; i++ {
-			if c.R.Intn(4) == 0 {
-				l = append(l, upd{Kind: kind, Key: key, Val: nil})
-			} else {
-				l = append(l, upd{Kind: kind, Key: key, Val: gen()})
+func cloneBlock(b *blockV) *blockV {
+	cp := &blockV{Host: b.Host, Allocs: map[int]string{}}
+	for k, v := range b.Allocs {
+		cp.Allocs[k] = v
+	}
+	return cp
+}
+
+// blockOf returns the existing block containing ip and the ordinal of ip in it.
+func (s *state) blockOf(ip string) (string, int) {
+	a := netip.MustParseAddr(ip)
+	for _, b := range sortedKeysB(s.Blocks) {
+		p := netip.MustParsePrefix(b)
+		if p.Contains(a) {
+			ord := 0
+			for x := p.Addr(); x != a; x = x.Next() {
+				ord++
+			}
+			return b, ord
+		}
+	}
+	return "", 0
+}
+
+// inUse: ip is a tunnel address of an existing node or an address of a local workload.
+func (s *state) inUse(ip string) bool {
+	return s.tunnelAddrs()[ip] || s.wepIPs()[ip]
+}
+
+type world struct {
+	c      *harness.Case
+	st     *state
+	events map[string][]upd // per kind, in true order
+	nMut   int
+}
+
+func (w *world) emit(kind, key string, val any) {
+	w.events[kind] = append(w.events[kind], upd{Kind: kind, Key: key, Val: val})
+}
+
+func (w *world) emitBlock(b string) {
+	if bv := w.st.Blocks[b]; bv != nil {
+		w.emit("block", b, cloneBlock(bv))
+	} else {
+		w.emit("block", b, (*blockV)(nil))
+	}
+}
+
+func (w *world) emitNode(n string) {
+	if nv := w.st.Nodes[n]; nv != nil {
+		cp := *nv
+		w.emit("node", n, &cp)
+	} else {
+		w.emit("node", n, (*nodeV)(nil))
+	}
+}
+
+func (w *world) emitWEP(name string) {
+	if wv := w.st.WEPs[name]; wv != nil {
+		w.emit("wep", name, &wepV{IPs: append([]string{}, wv.IPs...)})
+	} else {
+		w.emit("wep", name, (*wepV)(nil))
+	}
+}
+
+// record / unrecord an address in its block (if it lies in an existing block), emitting the block.
+func (w *world) record(ip, owner string) {
+	if b, ord := w.st.blockOf(ip); b != "" && w.st.Blocks[b].Allocs[ord] != owner {
+		w.st.Blocks[b].Allocs[ord] = owner
+		w.emitBlock(b)
+	}
+}
+
+func (w *world) unrecord(ip string) {
+	if w.st.inUse(ip) {
+		return
+	}
+	if b, ord := w.st.blockOf(ip); b != "" {
+		if _, ok := w.st.Blocks[b].Allocs[ord]; ok && w.c.R.Intn(4) != 0 { // sometimes the record leaks
+			delete(w.st.Blocks[b].Allocs, ord)
+			w.emitBlock(b)
+		}
+	}
+}
+
+func (w *world) addrTaken(addr, except string) bool {
+	ip := netip.MustParsePrefix(addr).Addr()
+	for n, nv := range w.st.Nodes {
+		if n != except && netip.MustParsePrefix(nv.Addr).Addr() == ip {
+			return true
+		}
+	}
+	return false
+}
+
+func (w *world) mutate() {
+	c, st := w.c, w.st
+	w.nMut++
+	switch r := c.R.Intn(100); {
+	case r < 12: // pool create / change
+		p := poolCands[c.R.Intn(len(poolCands))]
+		v := &poolV{Mode: poolModes[c.R.Intn(len(poolModes))], Masq: c.R.Intn(2) == 0, LBOnly: c.R.Intn(14) == 0}
+		st.Pools[p] = v
+		cp := *v
+		w.emit("pool", p, &cp)
+	case r < 16: // pool delete
+		p := poolCands[c.R.Intn(len(poolCands))]
+		if st.Pools[p] != nil {
+			delete(st.Pools, p)
+			w.emit("pool", p, (*poolV)(nil))
+		}
+	case r < 30: // node create / address change
+		n := nodeNames[c.R.Intn(len(nodeNames))]
+		cands := nodeAddrCands[n]
+		addr := cands[c.R.Intn(len(cands))]
+		if c.R.Intn(10) == 0 { // take over the address of another node if it is free right now
+			o := nodeNames[c.R.Intn(len(nodeNames))]
+			addr = nodeAddrCands[o][c.R.Intn(len(nodeAddrCands[o]))]
+		}
+		if w.addrTaken(addr, n) {
+			return
+		}
+		if st.Nodes[n] == nil {
+			st.Nodes[n] = &nodeV{}
+		}
+		st.Nodes[n].Addr = addr
+		if c.R.Intn(4) == 0 {
+			st.Nodes[n].MAC = fmt.Sprintf("66:aa:bb:cc:dd:%02x", c.R.Intn(4))
+		}
+		w.emitNode(n)
+	case r < 34: // node delete (its tunnel addresses stop being used; records may linger)
+		n := nodeNames[c.R.Intn(len(nodeNames))]
+		if nv := st.Nodes[n]; nv != nil {
+			delete(st.Nodes, n)
+			w.emitNode(n)
+			w.unrecord(nv.VXLANTun)
+			w.unrecord(nv.IPIPTun)
+		}
+	case r < 48: // node tunnel address set / change / clear
+		n := nodeNames[c.R.Intn(len(nodeNames))]
+		nv := st.Nodes[n]
+		if nv == nil {
+			return
+		}
+		kind := "vxlan"
+		if c.R.Intn(2) == 0 {
+			kind = "ipip"
+		}
+		old := nv.VXLANTun
+		if kind == "ipip" {
+			old = nv.IPIPTun
+		}
+		nu := ""
+		if c.R.Intn(5) != 0 {
+			t := tunnelCands(n, kind)
+			nu = t[c.R.Intn(len(t))]
+		}
+		if nu == old {
+			return
+		}
+		if nu != "" {
+			if b, _ := st.blockOf(nu); b != "" && netip.MustParsePrefix(b).Bits() == 32 && st.Blocks[b].Host != n {
+				return // a dedicated /32 tunnel block is used by its own node only
+			}
+			w.record(nu, n) // IPAM first
+		}
+		if kind == "ipip" {
+			nv.IPIPTun = nu
+		} else {
+			nv.VXLANTun = nu
+		}
+		w.emitNode(n)
+		if old != "" {
+			w.unrecord(old)
+		}
+	case r < 62: // block create / affinity change
+		b := blockCands[c.R.Intn(len(blockCands))]
+		var host string
+		switch q := c.R.Intn(10); {
+		case q < 3:
+			host = me
+		case q < 9:
+			host = nodeNames[1+c.R.Intn(len(nodeNames)-1)]
+		}
+		if bv := st.Blocks[b]; bv != nil {
+			if netip.MustParsePrefix(b).Bits() == 32 && len(bv.Allocs) > 0 {
+				return // keep a used /32 block with its owner
+			}
+			bv.Host = host
+		} else {
+			st.Blocks[b] = &blockV{Host: host, Allocs: map[int]string{}}
+		}
+		w.emitBlock(b)
+	case r < 76: // allocation add / change / release (not one that is in use)
+		bs := sortedKeysB(st.Blocks)
+		if len(bs) == 0 {
+			return
+		}
+		b := bs[c.R.Intn(len(bs))]
+		bv := st.Blocks[b]
+		p := netip.MustParsePrefix(b)
+		if p.Bits() == 32 {
+			return
+		}
+		ord := 1 + c.R.Intn(5)
+		if st.inUse(ordinalIP(b, ord)) {
+			return
+		}
+		if _, ok := bv.Allocs[ord]; ok && c.R.Intn(3) == 0 {
+			delete(bv.Allocs, ord)
+		} else {
+			switch q := c.R.Intn(10); {
+			case q < 3:
+				bv.Allocs[ord] = bv.Host
+			case q < 9:
+				bv.Allocs[ord] = nodeNames[c.R.Intn(len(nodeNames))]
+			default:
+				bv.Allocs[ord] = "" // allocation without a recorded node
 			}
 		}
-		if present {
-			l = append(l, upd{Kind: kind, Key: key, Val: finalVal})
-			if c.R.Intn(6) == 0 { // duplicate delivery of the same value (resync)
-				l = append(l, upd{Kind: kind, Key: key, Val: finalVal})
+		w.emitBlock(b)
+	case r < 80: // block delete (only when nothing uses it)
+		bs := sortedKeysB(st.Blocks)
+		if len(bs) == 0 {
+			return
+		}
+		b := bs[c.R.Intn(len(bs))]
+		p := netip.MustParsePrefix(b)
+		for ip := range st.tunnelAddrs() {
+			if p.Contains(netip.MustParseAddr(ip)) {
+				return
 			}
-		} else if len(l) > 0 && l[len(l)-1].Val != nil {
-			l = append(l, upd{Kind: kind, Key: key, Val: nil})
+		}
+		for ip := range st.wepIPs() {
+			if p.Contains(netip.MustParseAddr(ip)) {
+				return
+			}
+		}
+		delete(st.Blocks, b)
+		w.emitBlock(b)
+	case r < 94: // local workload create / address change
+		name := wepNames[c.R.Intn(len(wepNames))]
+		var ips []string
+		k := 1
+		if c.R.Intn(6) == 0 {
+			k = 2
+		}
+		for i := 0; i < k; i++ {
+			var ip string
+			if c.R.Intn(12) == 0 {
+				ip = []string{"10.0.5.1", "10.0.5.2", "10.7.1.1"}[c.R.Intn(3)] // assigned outside Calico IPAM, in no block
+			} else {
+				bs := sortedKeysB(st.Blocks)
+				if len(bs) == 0 {
+					continue
+				}
+				b := bs[c.R.Intn(len(bs))]
+				ord := 0
+				if netip.MustParsePrefix(b).Bits() != 32 {
+					ord = 1 + c.R.Intn(6)
+				} else if st.Blocks[b].Host != me {
+					continue
+				}
+				ip = ordinalIP(b, ord)
+			}
+			if st.inUse(ip) {
+				continue
+			}
+			dup := false
+			for _, e := range ips {
+				dup = dup || e == ip
+			}
+			if !dup {
+				ips = append(ips, ip)
+			}
+		}
+		if len(ips) == 0 {
+			return
+		}
+		var old []string
+		if wv := st.WEPs[name]; wv != nil {
+			old = wv.IPs
+		}
+		for _, ip := range ips {
+			w.record(ip, me) // the CNI plugin allocates before it creates the endpoint
+		}
+		st.WEPs[name] = &wepV{IPs: ips}
+		w.emitWEP(name)
+		for _, ip := range old {
+			w.unrecord(ip)
+		}
+	default: // local workload delete
+		name := wepNames[c.R.Intn(len(wepNames))]
+		if wv := st.WEPs[name]; wv != nil {
+			delete(st.WEPs, name)
+			w.emitWEP(name)
+			for _, ip := range wv.IPs {
+				w.unrecord(ip)
+			}
+		}
+	}
+}
+
+func genTrueHistory(c *harness.Case) *world {
+	w := &world{c: c, events: map[string][]upd{},
+		st: &state{Pools: map[string]*poolV{}, Nodes: map[string]*nodeV{}, Blocks: map[string]*blockV{}, WEPs: map[string]*wepV{}}}
+	n := c.Pick(60, 120) + c.R.Intn(40)
+	for i := 0; i < n; i++ {
+		w.mutate()
+	}
+	return w
+}
+
+var kinds = []string{"pool", "node", "block", "wep"}
+
+// delivery builds one legitimate view of the true history.
+func (w *world) delivery(c *harness.Case) []upd {
+	var lists [][]upd
+	for _, k := range kinds {
+		ev := w.events[k]
+		if len(ev) == 0 {
+			continue
+		}
+		cut := 0
+		switch c.R.Intn(4) {
+		case 0: // the watch started before anything happened
+		case 1:
+			cut = len(ev) // a single list of the final state of this kind
+		default:
+			cut = c.R.Intn(len(ev) + 1)
+		}
+		last := map[string]upd{}
+		for _, e := range ev[:cut] {
+			last[e.Key] = e
+		}
+		var l []upd
+		ks := sortedKeysB(last)
+		c.R.Shuffle(len(ks), func(i, j int) { ks[i], ks[j] = ks[j], ks[i] })
+		for _, key := range ks {
+			if !isNilVal(last[key].Val) {
+				l = append(l, last[key])
+			}
+		}
+		l = append(l, ev[cut:]...)
+		if c.R.Intn(5) == 0 { // resync of this kind at the end: the final values again
+			fin := map[string]upd{}
+			for _, e := range ev {
+				fin[e.Key] = e
+			}
+			fk := sortedKeysB(fin)
+			c.R.Shuffle(len(fk), func(i, j int) { fk[i], fk[j] = fk[j], fk[i] })
+			for _, key := range fk {
+				if !isNilVal(fin[key].Val) {
+					l = append(l, fin[key])
+				}
+			}
 		}
 		if len(l) > 0 {
 			lists = append(lists, l)
 		}
 	}
-	for _, p := range poolCands {
-		v, ok := fin.Pools[p]
-		add("pool", p, v, ok, func() any { return genPool(c) })
-	}
-	for _, n := range nodeNames {
-		v, ok := fin.Nodes[n]
-		n := n
-		add("node", n, v, ok, func() any { return genNode(c, n, c.R.Intn(8) == 0) })
-	}
-	for _, b := range blockCands {
-		v, ok := fin.Blocks[b]
-		b := b
-		add("block", b, v, ok, func() any { return genBlock(c, b) })
-	}
-	for _, w := range wepNames {
-		v, ok := fin.WEPs[w]
-		add("wep", w, v, ok, func() any {
-			// intermediate workload addresses: any low ordinal of any block candidate
-			n := 1 + c.R.Intn(2)
-			wv := &wepV{}
-			for i := 0; i < n; i++ {
-				b := blockCands[c.R.Intn(len(blockCands))]
-				ord := 0
-				if !strings.HasSuffix(b, "/32") {
-					ord = 1 + c.R.Intn(5)
-				}
-				ip := ordinalIP(b, ord)
-				dup := false
-				for _, e := range wv.IPs {
-					dup = dup || e == ip
-				}
-				if !dup {
-					wv.IPs = append(wv.IPs, ip)
-				}
-			}
-			return wv
-		})
-	}
-	// random interleaving
 	var out []upd
 	for len(lists) > 0 {
 		i := c.R.Intn(len(lists))
-		out = append(out, lists[i][0])
-		lists[i] = lists[i][1:]
+		// take a short run from one kind, then switch
+		run := 1 + c.R.Intn(4)
+		for run > 0 && len(lists[i]) > 0 {
+			out = append(out, lists[i][0])
+			lists[i] = lists[i][1:]
+			run--
+		}
 		if len(lists[i]) == 0 {
 			lists = append(lists[:i], lists[i+1:]...)
 		}
 	}
 	return out
+}
+
+func isNilVal(v any) bool {
+	switch x := v.(type) {
+	case nil:
+		return true
+	case *poolV:
+		return x == nil
+	case *nodeV:
+		return x == nil
+	case *blockV:
+		return x == nil
+	case *wepV:
+		return x == nil
+	}
+	return false
 }
 
 // ---------------------------------------------------------------------------------------------
@@ -869,10 +1031,12 @@ var newSink func(c *harness.Case, s *state) dpSink               // set by part 
 var checkSink func(c *harness.Case, s *state, k dpSink) *verdict // set by part 2
 
 func run(c *harness.Case) {
-	fin := genFinal(c)
-	h1 := genHistory(c, fin)
-	h2 := genHistory(c, fin)
+	w := genTrueHistory(c)
+	fin := w.st
+	h1 := w.delivery(c)
+	h2 := w.delivery(c)
 	detail := map[string]any{"final": fin, "history1": h1, "history2": h2}
+	c.Count("true_history_mutations", int64(w.nMut))
 
 	var sinks [2]dpSink
 	var pipes [2]*pipeline
